@@ -26,6 +26,12 @@ PT = {
                                '{ static constexpr auto origin() { return au::kelvins(300); } };', u=Fr(2), o=Fr(300)),
     'X5': dict(ty='VP_X5', inc='#include "au/units/kelvins.hh"\n//--\nstruct VP_X5 : decltype(au::Kelvins{} / au::mag<4>()) '
                                '{ static constexpr auto origin() { return (au::kelvins / au::mag<4>())(1001); } };', u=Fr(1, 4), o=Fr(1001, 4)),
+    # three units whose origins need different granularities (1/10 K, none, 1/1000 K), with the lowest origin on the unit that sorts in the middle
+    'X6': dict(ty='VP_X6', inc='#include "au/units/kelvins.hh"\n//--\nstruct VP_X6 : au::Kelvins '
+                               '{ static constexpr auto origin() { return (au::kelvins / au::mag<10>())(5); } };', u=Fr(1), o=Fr(1, 2)),
+    'X7': dict(ty='VP_X7', inc='#include "au/units/kelvins.hh"\n//--\nstruct VP_X7 : decltype(au::Kelvins{} * au::mag<5>() / au::mag<9>()) {};', u=Fr(5, 9), o=Fr(0)),
+    'X8': dict(ty='VP_X8', inc='#include "au/units/kelvins.hh"\n//--\nstruct VP_X8 : decltype(au::Kelvins{} * au::mag<7>()) '
+                               '{ static constexpr auto origin() { return (au::kelvins / au::mag<1000>())(1); } };', u=Fr(7), o=Fr(1, 1000)),
 }
 FINE = 9000   # every unit size and origin above is a multiple of 1/9000 K
 
